@@ -210,24 +210,34 @@ pub fn retarget(s: &mut Seq, tuple: &str) -> Res<()> {
     }
 }
 
+/// the local variable an assignment's left side belongs to (`x`, `x[i]`, `x.f`, `(x)`, `*x`)
+fn assigned_root(e: &Expr) -> Option<String> {
+    match e {
+        Expr::Path(p) if p.path.segments.len() == 1 => Some(p.path.segments[0].ident.to_string()),
+        Expr::Field(f) => assigned_root(&f.base),
+        Expr::Paren(p) => assigned_root(&p.expr),
+        Expr::Unary(u) => assigned_root(&u.expr),
+        Expr::Index(i) => assigned_root(&i.expr),
+        _ => None,
+    }
+}
+
 fn assigned_simple(e: &Expr, out: &mut Vec<String>) {
     struct V<'o>(&'o mut Vec<String>);
     impl<'ast, 'o> syn::visit::Visit<'ast> for V<'o> {
         fn visit_expr_assign(&mut self, a: &'ast ExprAssign) {
-            if let Expr::Path(p) = &*a.left {
-                if p.path.segments.len() == 1 {
-                    self.0.push(p.path.segments[0].ident.to_string());
-                }
+            // builder E: `x[i] = v` / `x.f = v` assign (part of) the local `x` as well — without this the
+            // branch's new value of `x` was silently dropped (found on `calibrate_image`)
+            if let Some(r) = assigned_root(&a.left) {
+                self.0.push(r);
             }
             syn::visit::visit_expr_assign(self, a);
         }
         fn visit_expr_binary(&mut self, b: &'ast ExprBinary) {
             use BinOp::*;
             if matches!(b.op, AddAssign(_) | SubAssign(_) | MulAssign(_) | DivAssign(_) | RemAssign(_) | BitXorAssign(_) | BitAndAssign(_) | BitOrAssign(_) | ShlAssign(_) | ShrAssign(_)) {
-                if let Expr::Path(p) = &*b.left {
-                    if p.path.segments.len() == 1 {
-                        self.0.push(p.path.segments[0].ident.to_string());
-                    }
+                if let Some(r) = assigned_root(&b.left) {
+                    self.0.push(r);
                 }
             }
             syn::visit::visit_expr_binary(self, b);
